@@ -76,6 +76,14 @@ type R struct {
 	live         map[*Env]bool // running activations
 }
 
+func isCallable(v V) bool {
+	switch v.(type) {
+	case *Builtin, *Clo:
+		return true
+	}
+	return false
+}
+
 func mkList(v []V) V {
 	if len(v) == 0 {
 		return nil
@@ -654,6 +662,11 @@ func (r *R) builtin(op string, a []V) V {
 				out = append(out, r.apply(a[0], []V{e}))
 			}
 			return mkList(out)
+		case nil:
+			// the empty list (an empty variadic tail, (list)) is a list
+			if isCallable(a[0]) {
+				return nil
+			}
 		}
 		panic(ErrV{"type", op})
 	case "apply":
@@ -663,6 +676,10 @@ func (r *R) builtin(op string, a []V) V {
 			return r.apply(a[0], append([]V{}, x.V...))
 		case *Lst:
 			return r.apply(a[0], append([]V{}, x.V...))
+		case nil:
+			if isCallable(a[0]) {
+				return r.apply(a[0], nil)
+			}
 		}
 		panic(ErrV{"type", op})
 	case "hash":
